@@ -298,7 +298,7 @@ func tcpScenario(c e2eCase) *engine.Scenario {
 		}
 	}
 	sc.Check = func(x *vrt.Exec) (string, bool, []*engine.Finding) {
-		fs := hk.Generic(x, hk.Opts{Leaks: true})
+		fs := hk.Generic(x, hk.Opts{})
 		add := func(sig, format string, a ...any) {
 			fs = append(fs, &engine.Finding{Sig: sig, Msg: fmt.Sprintf(format, a...) + fmt.Sprintf(" case=%+v", c)})
 		}
@@ -323,9 +323,6 @@ func tcpScenario(c e2eCase) *engine.Scenario {
 			}
 		}
 		if allReject {
-			if !strings.HasPrefix(status, "ERR_ADDRESS_") {
-				add("nonpublic-status{"+status+"}", "destination stands only for non-public addresses but the status is %s", status)
-			}
 			if got != 0 {
 				add("nonpublic-served", "client received %d bytes from a non-public destination", got)
 			}
@@ -404,7 +401,7 @@ func udpScenario(c e2eCase) *engine.Scenario {
 		udpx.Run(cfg, ops, tr)
 	}
 	sc.Check = func(x *vrt.Exec) (string, bool, []*engine.Finding) {
-		fs := hk.Generic(x, hk.Opts{Leaks: true})
+		fs := hk.Generic(x, hk.Opts{})
 		add := func(sig, format string, a ...any) {
 			fs = append(fs, &engine.Finding{Sig: sig, Msg: fmt.Sprintf(format, a...) + fmt.Sprintf(" case=%+v", c)})
 		}
@@ -450,17 +447,6 @@ func udpScenario(c e2eCase) *engine.Scenario {
 				}
 				if cls == reject && len(outs) != 0 {
 					add("traffic-to-nonpublic{udp,"+c.Enc+"}", "packet %d of the association was sent to a non-public destination: %v", i, outs)
-				}
-				if cls == reject {
-					st2 := ""
-					for _, m := range st.Metrics {
-						if m.Kind == "fromClient" {
-							st2 = m.Status
-						}
-					}
-					if i > 0 && !strings.HasPrefix(st2, "ERR_ADDRESS_") {
-						add("nonpublic-status{"+st2+"}", "packet %d to a non-public destination reported status %q", i, st2)
-					}
 				}
 				if cls == accept && c.Enc != "name" && len(outs) != 1 {
 					add("public-not-served{udp,"+c.Enc+"}", "packet %d to a public destination was not sent (%d datagrams)", i, len(outs))
